@@ -13,6 +13,7 @@ from props.calls import enc_all, dec_all, pretty, INT_MAX, ATOM_MAX
 
 PID = 'C10'
 HARNESS = 'h_c10'
+HARNESS_EXTRA = ('rec.h', 'reuse.h')
 MODEL_MODULE = 'V.C10.Model'
 # The reader model is written against the abstract stream (C09 proves buffer independence); the implementation is additionally run at small
 # buffer sizes so that tokens, CR/LF pairs, comments and strings of the generated texts land on refill boundaries (seeded change C10-r4).
@@ -21,6 +22,15 @@ VARIANTS = {'default': {}, 'N16': {'POTASSCO_VERIF_BUF_SIZE': 16}, 'N67': {'POTA
 
 def variant_of(c):
     return ('default', 'N16', 'N67')[sum(c) % 3]
+
+
+def primed(c):
+    """harness/reuse.h: every other case (FNV-1a over the case's integers, bit 17) is read by a reader OBJECT that has read an accepted
+    incremental primer text before (reader reuse; invisible for a correct reader, so neither the model nor the oracle depends on it)"""
+    h = 1469598103934665603
+    for x in c:
+        h = ((h ^ (x & 0xFFFFFFFFFFFFFFFF)) * 1099511628211) & 0xFFFFFFFFFFFFFFFF
+    return bool((h >> 17) & 1)
 
 READY = True
 RULE = ('cases = input texts: (a) programs (1-4 steps, all directive kinds, empty heads/bodies/aggregates, negative bounds, weights 0, minimize with '
@@ -309,7 +319,8 @@ def nontrivial(case, obs):
 def describe(case):
     text, prog = split(case)
     s = bytes(x & 255 for x in text).decode('latin-1').encode('unicode_escape').decode()
-    return 'buf=%s text=%r' % (variant_of(case), s) + (' program=' + pretty(prog) if prog is not None else '')
+    rd = "reused(after reading '#incremental.\\n')" if primed(case) else 'fresh'
+    return 'buf=%s reader=%s text=%r' % (variant_of(case), rd, s) + (' program=' + pretty(prog) if prog is not None else '')
 
 
 # ------------------------------------------------------------------------------------------------
